@@ -15,8 +15,35 @@ UTILITY_PROPS = ("hot_utilities", "cold_utilities")
 
 def _is_deepcopy(r: Resolver, f: FuncInfo, e: ast.AST) -> bool:
     if isinstance(e, ast.Call):
-        return any(t == "ext:copy.deepcopy" for t in r.resolve_call(f, e) if isinstance(t, str))
+        if any(t == "ext:copy.deepcopy" for t in r.resolve_call(f, e) if isinstance(t, str)):
+            return True
+        # an injected cloner whose default IS copy.deepcopy:  def f(..., clone=copy.deepcopy): ... clone(x)
+        if isinstance(e.func, ast.Name) and e.func.id in [a.arg for a in f.params]:
+            d = f.default_of(e.func.id)
+            if d is not None:
+                b = r.resolve_static(f, f.module, d) if isinstance(d, (ast.Name, ast.Attribute)) else None
+                if b is not None and b.kind == "ext" and str(b.target).endswith("copy.deepcopy"):
+                    return True
     return False
+
+
+def _sharing_verdict(r: Resolver, f: FuncInfo, e: ast.AST) -> Optional[bool]:
+    """True: the value is certainly shared with its source (the object itself, or a shallow copy whose members are the same utility objects);
+    None: produced by a call this rule does not interpret (undecided)."""
+    if isinstance(e, (ast.Name, ast.Attribute, ast.Subscript)):
+        return True
+    if isinstance(e, ast.Call):
+        tg = r.resolve_call(f, e)
+        if any(isinstance(t, str) and t in ("ext:copy.copy",) for t in tg):
+            return True
+        if isinstance(e.func, ast.Name) and e.func.id in ("list", "tuple", "dict", "set", "sorted") and e.args:
+            return True
+        if isinstance(e.func, ast.Attribute) and e.func.attr == "copy" and not e.args:
+            return True
+        return None
+    if isinstance(e, (ast.List, ast.Tuple, ast.ListComp, ast.GeneratorExp)):
+        return True
+    return None
 
 
 def _fresh_collection(r: Resolver, f: FuncInfo, e: ast.AST) -> bool:
@@ -88,6 +115,9 @@ def check_utility_ownership(ctx: CheckContext, p: Program, r: Resolver, cone: Li
                     why = (f"the one deep copy '{a.id}' is inserted into several zones' collections (or from inside a loop it was made outside of): "
                            "those zones share utility objects")
                 if not ok and not why:
+                    if _sharing_verdict(r, f, a) is None:
+                        ctx.info.setdefault("own_undecided", []).append(f"{f.qualname}: {ast.unparse(a)[:60]} is produced by a call this rule does not interpret")
+                        continue
                     why = (f"{ast.unparse(st.func.value)} receives {ast.unparse(a)}, which is not a deep copy made here: "
                            "zones would share utility objects, so duties assigned in one zone appear in another")
                 ctx.ob(rule, f"{f.qualname}:{norm_stmt(st)}", f"{f.module.relpath}:{st.lineno}", ok, why)
@@ -103,6 +133,9 @@ def check_utility_ownership(ctx: CheckContext, p: Program, r: Resolver, cone: Li
                         n += 1
                         v = st.value
                         ok = _is_deepcopy(r, f, v) or _fresh_collection(r, f, v) or (isinstance(v, ast.Name) and v.id in local_copies)
+                        if not ok and _sharing_verdict(r, f, v) is None:
+                            ctx.info.setdefault("own_undecided", []).append(f"{f.qualname}: {ast.unparse(v)[:60]} is produced by a call this rule does not interpret")
+                            continue
                         ctx.ob(rule, f"{f.qualname}:{norm_stmt(st)}", f"{f.module.relpath}:{st.lineno}", ok,
                                "" if ok else f"{ast.unparse(tg)} is bound to {ast.unparse(v)}, a collection that another zone also holds")
     # target records derived from a zone's utilities by summation/matching must work on copies
@@ -117,6 +150,9 @@ def check_utility_ownership(ctx: CheckContext, p: Program, r: Resolver, cone: Li
                         (isinstance(v, ast.Attribute) and v.attr in UTILITY_PROPS):
                     n += 1
                     ok = _is_deepcopy(r, f, v)
+                    if not ok and _sharing_verdict(r, f, v) is None:
+                        ctx.info.setdefault("own_undecided", []).append(f"{f.qualname}: {ast.unparse(v)[:60]} is produced by a call this rule does not interpret")
+                        continue
                     ctx.ob(rule, f"{f.qualname}:{norm_stmt(st)}", f"{f.module.relpath}:{st.lineno}", ok,
                            "" if ok else f"{f.name} accumulates / nets duties on {ast.unparse(v)} itself instead of a deep copy: the zone's own utilities are overwritten")
     return n
@@ -286,6 +322,31 @@ def check_every_zone_served(ctx: CheckContext, p: Program, r: Resolver, cone: Li
                     ctx.ob(rule, f"{f.qualname}:early-return", f"{f.module.relpath}:{x.lineno}", False,
                            f"{f.name} returns ({cond}) before it has handed the utilities to the zone and descended into its sub-zones: that zone and its whole "
                            f"subtree receive no utility copies")
+        # the descent itself: inside the loop over the sub-zones nothing skips a child before the self-call (`if child is X: continue`)
+        for loop in [x for x in nodes if isinstance(x, ast.For) and any(d in list(ast.walk(x)) for d in descends)]:
+            parent = {}
+            for x in ast.walk(loop):
+                for ch in ast.iter_child_nodes(x):
+                    parent[id(ch)] = x
+            for d in [d for d in descends if d in list(ast.walk(loop))]:
+                cur, guards = d, []
+                while id(cur) in parent and parent[id(cur)] is not loop:
+                    par = parent[id(cur)]
+                    if isinstance(par, ast.If) and cur is not par.test:
+                        guards.append(ast.unparse(par.test)[:60])
+                    cur = par
+                # statements of the loop body before the one holding the self-call
+                top = cur
+                for st in loop.body:
+                    if st is top:
+                        break
+                    if isinstance(st, ast.If) and any(isinstance(x, (ast.Continue, ast.Break)) for x in ast.walk(st)):
+                        guards.append(f"skip when {ast.unparse(st.test)[:60]}")
+                if guards:
+                    n += 1
+                    ctx.ob(rule, f"{f.qualname}:descent-guard", f"{f.module.relpath}:{d.lineno}", False,
+                           f"{f.name} descends into a sub-zone only under a condition ({'; '.join(guards)}): the sub-zones it skips, and everything below them, "
+                           f"receive no utility copies")
         if not any(o.rule == rule and o.key.startswith(f.qualname) for o in ctx.obligations):
             n += 1
             ctx.ob(rule, f"{f.qualname}:reaches-every-zone", f.loc, True, "")
